@@ -1152,6 +1152,7 @@ def _overlap_job(args):
             time.sleep(0.001)
     reached = fd is not None
     ob = exec_scenario(b, os.path.join(root, "B"))
+    early = reached and not th.is_alive()      # A is over although its backend still waits at the gate
     if fd is not None:
         os.write(fd, b"x")
         os.close(fd)
@@ -1173,6 +1174,8 @@ def _overlap_job(args):
                          (tag, {k: len(v) for k, v in got["stdin"].items()}, {k: len(v) for k, v in ref["stdin"].items()})))
         elif [(m["id"], m["args"]) for m in got["marker"]] != [(m["id"], m["args"]) for m in ref["marker"]]:
             viol.append(("overlap_interference", "%s: backend runs %s, alone %s" % (tag, got["marker"], ref["marker"])))
+    if early:
+        viol.append(("finished_before_its_backend", "A was over (%s) while its backend was still held at the gate: it cannot know how the backend ends" % (oa or {}).get("status")))
     same("A (held at the gate while B ran)", a, oa, alone[0])
     same("B (ran while A's backend was held)", b, ob, alone[1])
     left = sorted(os.listdir(os.path.join(root, "shared-tmp")))
